@@ -175,7 +175,12 @@ class Mode(LogMixin):
             # start the mode a second time from inside this start.
             self._mode_stopped_callback()
 
-        self.machine.events.post('mode_{}_will_start'.format(self.name), **kwargs)
+        # the queue of a triggering queue event is ours alone (see use_wait_queue below). it must not travel on with
+        # our own lifecycle events: a second use_wait_queue mode started by one of them would lock it again
+        # ("Double lock"), and the starting event has its own queue.
+        event_kwargs = {key: value for key, value in kwargs.items() if key != 'queue'}
+
+        self.machine.events.post('mode_{}_will_start'.format(self.name), **event_kwargs)
         '''event: mode_(name)_will_start
 
         desc: Posted when a mode is about to start. The "name" part is replaced
@@ -198,7 +203,7 @@ class Mode(LogMixin):
         else:
             self.priority = self.config['mode']['priority']
 
-        self.start_event_kwargs = kwargs
+        self.start_event_kwargs = event_kwargs
 
         # hook for custom code. called before any mode devices are set up
         self.mode_will_start(**self.start_event_kwargs)
@@ -234,9 +239,8 @@ class Mode(LogMixin):
 
         # do not forward the queue of the triggering queue event. the starting event has its own queues. sharing
         # the (already locked) queue with a second dispatcher would block both of them forever.
-        starting_kwargs = {key: value for key, value in kwargs.items() if key != 'queue'}
         self.machine.events.post_queue(event=MODE_STARTING_EVENT_TEMPLATE.format(self.name),
-                                       callback=self._started, **starting_kwargs)
+                                       callback=self._started, **event_kwargs)
         '''event: mode_(name)_starting
 
         desc: The mode called "name" is starting.
